@@ -386,7 +386,7 @@ fn main() {
         proofs: AtomicU64::new(0),
         build_err: AtomicU64::new(0),
         values_compared: AtomicU64::new(0),
-        proof_budget: AtomicU64::new(if ctx.quick() { 250 } else { 30000 }),
+        proof_budget: AtomicU64::new(if ctx.quick() { 20000 } else { 400000 }),
         unsat_ok_not_proved: AtomicU64::new(0),
     };
     let outcomes = Histo::new();
@@ -422,13 +422,13 @@ fn main() {
         // pruning is per family: the subtree below a state depends on the family's bounds
         let seen_prune = SeenSet::default();
         // each family may use the budget up to a proportional mark
-        let stop_at = 0.92 * (fi as f64 + 1.0) / fams.len() as f64 + 0.04;
+        let stop_at = 0.93; let _ = fi; // families run smallest first; whatever does not fit is cut and reported
         let t0 = ctx.elapsed_s();
         explore::<F, F>(
             fam,
             &cs,
             &ctx,
-            stop_at.min(0.95),
+            stop_at,
             &seen_keys,
             &seen_prune,
             &stats,
